@@ -271,6 +271,19 @@ def autoReason (o : Outcome) (bidir : Bool) (revPass : Bool) : Reason :=
   | .noFeasibleMode _ _ => .noFeasibleMode
   | .served _ _ => if bidir && !revPass then .modeNotFeasible else .none
 
+/-! ## request acceptance (json_io.requests_from_json -> trx_mode_params, _check_one_request) -/
+
+/-- which error a request document raises, if any: unknown transceiver type or unknown mode → EquipmentConfigError;
+a library mode whose baud rate exceeds its min_spacing → EquipmentConfigError; a requested spacing below the mode's
+min_spacing → ServiceError.  Without a mode (automatic selection) only the type is checked. -/
+def requestCheck (trxKnown : Bool) (modeGiven modeFound : Bool) (baud minSpacing spacing : Int) : Option String :=
+  if !trxKnown then some "EquipmentConfigError"
+  else if !modeGiven then none
+  else if !modeFound then some "EquipmentConfigError"
+  else if baud > minSpacing then some "EquipmentConfigError"
+  else if minSpacing > spacing then some "ServiceError"
+  else none
+
 /-! ## bookkeeping of the added-noise contributions -/
 
 /-- an element of a path, as far as `propagate` cares: a ROADM crossing with its `roadm-osnr` impairment
